@@ -37,6 +37,8 @@ def expected_values(v):
 def compare_array(w, got, fm, name, oracle, prop, what):
     """`got` (DimArray read from the file) against the model's variable `name`."""
     mv = fm.vars[name]
+    if not isinstance(got, w.da.DimArray):
+        got = w.da.DimArray(np.asarray(got))   # a bare scalar came back: compare it as a 0-d array without metadata
     if list(got.dims) != list(mv["dims"]):
         raise Violation(prop, oracle, "%s: variable %s dims %r, written %r" % (what, name, got.dims, mv["dims"]))
     want = mv["values"]
